@@ -45,6 +45,7 @@ func main() {
 	flag.Var(&devirts, "devirt", "I=S: values of the interface type I are pointers to the struct S; their method calls are calls of the methods of S")
 	flag.Var(&objects, "object", "S: pointers to the struct type S are object ids (Z, 0 = nil); the fields live in the heap, one array per object")
 	flag.Var(&shapes, "shape", "Func=SKELETON: the control skeleton the proofs of this tie were written for; a function with another skeleton is left out")
+	timeInt := flag.Bool("timeint", false, "time.Time values are Z (nanoseconds on one clock): t.Before(u) is t <? u, t.After(u) is u <? t, t.Equal(u) is t =? u")
 	require := flag.String("require", "", "comma separated functions that must be translated (default: all roots); the others may be left out")
 	printShapes := flag.Bool("print-shapes", false, "print Func=SKELETON for every function that would be translated and exit")
 	selfcheck := flag.String("selfcheck", "", "directory of the compiled GL library: compile the generated file with coqc and fail if it does not check")
@@ -57,7 +58,7 @@ func main() {
 	if *require != "" {
 		req = strings.Split(*require, ",")
 	}
-	text, err := translate(*repo, *pkg, strings.Split(*funcs, ","), fuels, params, ifaces, shapes, req, objects, vias, devirts, stdpkgs, *printShapes)
+	text, err := translate(*repo, *pkg, strings.Split(*funcs, ","), fuels, params, ifaces, shapes, req, objects, vias, devirts, stdpkgs, *timeInt, *printShapes)
 	if err != nil {
 		fmt.Fprintln(os.Stderr, "go2coq:", err)
 		os.Exit(1)
